@@ -288,7 +288,10 @@ fn eval_date_add<'a>(args: &[Option<Value<'a>>]) -> Option<Value<'a>> {
 
     let (year, month, day) = parse_date(&date_str)?;
     let day_number = date_to_days(year, month, day);
-    let new_day_number = day_number + days;
+    let new_day_number = match day_number.checked_add(days) {
+        Some(n) if (MIN_DAY_NUMBER..=MAX_DAY_NUMBER).contains(&n) => n,
+        _ => return Some(Value::Null),
+    };
     let (new_year, new_month, new_day) = days_to_date(new_day_number);
 
     Some(Value::Text(Cow::Owned(format!(
@@ -303,7 +306,10 @@ fn eval_date_sub<'a>(args: &[Option<Value<'a>>]) -> Option<Value<'a>> {
 
     let (year, month, day) = parse_date(&date_str)?;
     let day_number = date_to_days(year, month, day);
-    let new_day_number = day_number - days;
+    let new_day_number = match day_number.checked_sub(days) {
+        Some(n) if (MIN_DAY_NUMBER..=MAX_DAY_NUMBER).contains(&n) => n,
+        _ => return Some(Value::Null),
+    };
     let (new_year, new_month, new_day) = days_to_date(new_day_number);
 
     Some(Value::Text(Cow::Owned(format!(
@@ -588,6 +594,10 @@ fn days_in_month(year: i64, month: u32) -> u32 {
         _ => 30,
     }
 }
+
+/// Day numbers of 0001-01-01 and 9999-12-31: the range DATE_ADD / DATE_SUB may produce.
+const MIN_DAY_NUMBER: i64 = 1;
+const MAX_DAY_NUMBER: i64 = 3_652_059;
 
 fn date_to_days(year: i64, month: u32, day: u32) -> i64 {
     let y = if month <= 2 { year - 1 } else { year };
